@@ -17,8 +17,11 @@
    Go field(s) it stands for are exported and not tagged json:"-" (flags looked up by name in
    Gen.JsonFields); the others become Go zero values; buffers are the ones ParseDir re-reads.
 
-   Not modelled: the JSON text itself and the hand-written (un)marshalers (guid.GUID, TypedFirmware and
-   TypeSpecificHeader envelopes; ThreeUint8, whose UnmarshalJSON stores the first three characters of the
+   [guid_string]/[guid_parse] are guid.GUID.String and guid.Parse, the text form of every GUID in
+   summary.json (proved inverse in ExtractProofs.guid_text_roundtrip).
+
+   Not modelled: the JSON text itself and the hand-written (un)marshalers (TypedFirmware and
+   TypeSpecificHeader envelopes, the {"GUID": ...} object around a GUID; ThreeUint8, whose UnmarshalJSON stores the first three characters of the
    decimal text, appears as the arbitrary function [mangle3] : the reloaded File.Header.Size is some
    function of the old value); the entries of an NVAR store (the store is the opaque [f_nvar] of Ffs.v:
    its own extract paths and JSON fields belong to the NVAR model); flash-descriptor images (IFD, ME and
@@ -88,6 +91,30 @@ Definition guid_string (g : bytes) : bytes :=
   let b i := hex2_uc (nth i g 0) in
   b 3%nat ++ b 2%nat ++ b 1%nat ++ b 0%nat ++ [45] ++ b 5%nat ++ b 4%nat ++ [45] ++ b 7%nat ++ b 6%nat ++ [45] ++
   b 8%nat ++ b 9%nat ++ [45] ++ b 10%nat ++ b 11%nat ++ b 12%nat ++ b 13%nat ++ b 14%nat ++ b 15%nat.
+
+(* guid.Parse: drop the hyphens, hex-decode (either case), 16 bytes, undo the mixed-endian order *)
+Definition unhex1 (c : Z) : option Z :=
+  if (48 <=? c) && (c <=? 57) then Some (c - 48)
+  else if (65 <=? c) && (c <=? 70) then Some (c - 55)
+  else if (97 <=? c) && (c <=? 102) then Some (c - 87)
+  else None.
+Fixpoint unhex (s : bytes) : option bytes :=
+  match s with
+  | [] => Some []
+  | a :: b :: r =>
+    match unhex1 a, unhex1 b, unhex r with
+    | Some x, Some y, Some l => Some (16 * x + y :: l)
+    | _, _, _ => None
+    end
+  | _ => None
+  end.
+Definition guid_parse (s : bytes) : option bytes :=
+  match unhex (filter (fun c => negb (c =? 45)) s) with
+  | Some [d0; d1; d2; d3; d4; d5; d6; d7; d8; d9; d10; d11; d12; d13; d14; d15] =>
+    Some [d3; d2; d1; d0; d5; d4; d7; d6; d8; d9; d10; d11; d12; d13; d14; d15]
+  | _ => None
+  end.
+
 
 Definition t_bios : bytes := Eval vm_compute in (str "bios").
 Definition t_0x : bytes := Eval vm_compute in (str "0x").
@@ -515,6 +542,11 @@ Definition dir_save_tree (rbuf : bytes) (elems : list node) (len : Z) : outcome 
 Definition dir_save (d : nat) (img : bytes) : outcome bytes :=
   do ep <- parse_region dec u2s nvar d img; let '(elems, _) := ep in
   dir_save_tree img elems (zlen img).
+
+(* the reference for [dir_save]: the same two passes over the parsed tree itself, no directory *)
+Definition save_twice_image (d : nat) (img : bytes) : outcome bytes :=
+  do ep <- parse_region dec u2s nvar d img; let '(elems, _) := ep in
+  save_twice elems (zlen img) (240, false).
 
 (* the paths written by utk.Run(IMAGE, "extract", DIR), in write order (summary.json excluded) *)
 Definition extract_paths (d : nat) (img : bytes) : outcome (list path) :=
